@@ -80,6 +80,33 @@ CHECKS["C16"] = dict(level="model_checking",
 CHECKS["C12"] = src("Family F_unsup: a small control alphabet plus exactly one construct outside the supported subset at any statement position (labelled break/continue, goto+label, select, defer, fallthrough out of a yielding case, yield in an if initialiser, range over pointer-to-array / func / type-parameter slice) and, as negative controls, the same constructs inside a closure nested in the generator without a yield inside. CoSource gives each construct its Go meaning by desugaring (labels, defers, live array reads are modelled), validated natively. Outcome per program: the tool fails (diagnostic panic, non-zero exit, unbuildable output) = rejected, fine; accepted = the compiled generator must equal the specification, else violation; a negative control that is rejected is a violation; plus a generator with the wrong result signature.",
   "Any failure of the tool counts as rejection; the property forbids output that builds and behaves differently. Bounded: size 2 (quick) / 3 (thorough).", "7 C12")
 
+# additions made while the families grew (second round of seeded changes, defects reported by sub-agents)
+ADD = {
+ "C01": (" Further families through the same pipeline: F_lit (immediately invoked closures and generator literals nested in the generator, capturing its variables), F_jump (break / continue / switch / yielding post statements one size level deeper), the control-flow programs under every declaration form (method, generic function, function literal, literal nested in a literal), and larger programs derived from seeded choice tapes (MC_Rnd).",
+         " Thorough trades tape length for size: F_ctl size 4 x tapes up to 2, F_jump size 5."),
+ "C02": (" Also F_expr (shapes of the yielded expression: negated, parenthesised, argument of a call, a variable of another package rt.Level changed by a plain post statement) and F_box / F_boxv (yields of freshly allocated objects and of struct VALUES, i.e. composite literals that read a variable).",
+         " Thorough: F_eff size 3 x tapes up to 4 x every truncation."),
+ "C03": (" Also F_rscope (range loops: `=` forms assign the function-level variables observed after the loop, `:=` forms do not) and F_boxv (a variable read by a yielded composite literal is read when the yield is reached).", ""),
+ "C05": ("", " Thorough: size 4 x tapes up to 2."),
+ "C06": (" Loop headers without a variable (for range it, for _ = range it) and a multi-value re-declaration of the loop variable in the body are part of the consumer grammar. Second family F_xf of MC_Src: consumers that are generators themselves (for k := range it { ... Yield ... } over a local iterator, also inside switch clauses, with break / continue / return and hand pulls).", ""),
+ "C09": ("", " Family of 11 generators incl. generators that mix receiving and plain yields."),
+ "C10": (" The exhaustive alphabet has 18 bytes (incl. EF BF BD: a validly encoded U+FFFD); boundary runes, surrogates, overlong and truncated forms and random mixtures of valid runes with stray bytes are passed in as data; map scenarios include a NaN key (not equal to itself) in the initial population; the integer iterator is also driven with uint8 / int64 / named integer types and called 300 times past its end.", ""),
+ "C11": (" Besides F_ctlx the tool also compiles every program of F_range (incl. sequences of loops over array values, named operand types, a typed constant operand), F_scope, F_yf, F_xf, F_expr and F_jump at a smaller bound; the F_expr packages additionally declare generators of slice / map / func / any / error / struct / pointer / channel / Iter[int] (generator of generators) / type-parameter element types.",
+         " Thorough: same sizes, every 2nd program under each other configuration."),
+ "C12": (" Further constructs: a parenthesised yield statement, yield in the initialiser of an else-if, labelled range loop, defer / break / continue inside a range loop the rewriter leaves native, break inside a yield-free select; negative controls clo-lrange, clo-selbrk.", ""),
+ "C13": (" Wrappers of eta shape whose type differs from the callee's (implicitly instantiated generic, unnamed or variadic parameters, result converted to an interface, permuted / repeated arguments), a //go:embed directive next to a generator literal, and a package-level function variable declared in an ordinary (unprocessed) file of the package are part of the bystander packages.", ""),
+ "C14": (" Two further families of MC_Src: F_indep (ONE generator holding a local iterator, delegates and a second iterator created in a later step; hand pulls also after exhaustion) and F_gg (generators of GENERATORS consumed by the flattening round-robin consumer GGStep of CoSource.tla = rt.GGIt, which keeps every delivered handle and advances exhausted ones again in every cycle).", ""),
+ "C15": (" Plus a hand-written dependency scenario (a closure over a generator of a sub-package of the same run; three runs on unchanged sources must give the same bytes) validated by the same trace specification.", ""),
+ "C16": (" Plus the dependency scenario of C15 and a path scenario (`_co` elsewhere in directory and file names: app_core/rune_codec_co.go) through the same entry point.", ""),
+ "C17": ("", " Term / program size 3 in both tiers; 2*10^4 (quick) / 2*10^5 (thorough) repetitions."),
+ "C18": (" Also a panicking yielding post statement (for ...; ...; Yield(r.B(7))) combined with continue inside a switch.", " Thorough: size 4 x tapes up to 2."),
+ "C04": (" Operands of named types, an untyped constant operand with an int64 iteration variable, empty-body loops as simple statements (sequences of loops in one block).", " Thorough: the family with the additional mutations (rangex) at the quick size."),
+ "C07": (" F_box / F_boxv (fresh objects / composite-literal values), permuted-argument wrappers and the qualified variable rt.Level are included; a missing stage is a machinery error (exit 2), never a silent pass.", ""),
+}
+for k, (t, n) in ADD.items():
+    CHECKS[k]["text"] += t
+    CHECKS[k]["note"] += n
+
 NOT_YET = {}
 
 def main():
